@@ -4087,13 +4087,18 @@ func SendXMLResponse(ctx *fiber.Ctx, resp any, err error, l *MetaOpts) error {
 	}
 
 	if l.EvSender != nil {
-		l.EvSender.SendEvent(ctx, s3event.EventMeta{
+		meta := s3event.EventMeta{
 			BucketOwner: l.BucketOwner,
 			ObjectSize:  l.ObjectSize,
 			ObjectETag:  l.ObjectETag,
 			VersionId:   l.VersionId,
 			EventName:   l.EventName,
-		})
+		}
+		// a batch delete answers 200 also when some of its entries failed
+		if res, ok := resp.(s3response.DeleteResult); ok {
+			meta.FailedDeletes = res.Error
+		}
+		l.EvSender.SendEvent(ctx, meta)
 	}
 
 	if ok {
